@@ -365,6 +365,7 @@ func lexShapes() []*E {
 }
 
 func checkC01(c *Ctx) {
+	refFloatDigits = 17
 	env := exprEnv()
 	pos := positions()
 	run := func(stratum string, p position, e *E, mode int) {
